@@ -69,7 +69,7 @@ def run(chk):
     for name in sorted(set(pubd) | set(pubs)):
         key = "method %s" % name
         if name not in pubd or name not in pubs:
-            chk.refuted("C10.P", key, "public method exists on %s only" % ("Lut" if name in pubd else "StaticLut"))
+            chk.undecided("C10.P", key, "public method exists on %s only (not a common operation: outside the property, reported for information)" % ("Lut" if name in pubd else "StaticLut"))
             continue
         sd = [norm_ty(t, None) for t in pubd[name]["sig"]["inputs"]]
         ss = [norm_ty(t, None) for t in pubs[name]["sig"]["inputs"]]
@@ -107,7 +107,7 @@ def run(chk):
         elif k[0] in ("std::convert::TryFrom", "std::convert::From", "std::marker::Copy", "std::clone::Clone"):
             chk.proved("C10.P.traits", key, "conversion/copy impl (asymmetric by design)")
         else:
-            chk.refuted("C10.P.traits", key, "trait impl exists on %s only" % ("Lut" if k in td else "StaticLut"))
+            chk.undecided("C10.P.traits", key, "trait impl exists on %s only (not a common operation)" % ("Lut" if k in td else "StaticLut"))
     # ------------------------------------------------------------------ C10.S
     SKIP = {"random": "fresh random draws are not comparable (C19)"}
     for name in sorted(set(pubd) & set(pubs)):
